@@ -32,6 +32,9 @@ func init() {
 
 func runC15(w *World, r *Report) {
 	hrDumpEndpointVerbatim(w, r, "R6")
+	hrWildcardIsAWholePart(w, r, "R3")
+	hrEveryRunResultParses(w, r, "R6")
+	hrDecodeKeepsAccumulated(w, r, "R6")
 	hrTreeRebuiltOnlyWhenNewer(w, r, "R3")
 	hrConvergenceKeepsParametricChild(w, r, "R3")
 	hrNormalisedPathSpelling(w, r, "R3")
